@@ -28,7 +28,8 @@ Name resolution is by simple name (functions of the same module / imported names
 `__init__` from a parameter are resolved through the instantiation sites
 (`PartitionTreeBuilder(labels_partition)`), and from a call through the returned names
 (`get_optimize_random_greedy_track_flops`).  Calls through parameters / external libraries are
-opaque (argument or library behaviour: trusted base).  A function reference that is not called
+opaque (argument or library behaviour: trusted base); a receiver whose called methods fit several
+unrelated classes is disambiguated by its name (`tree.m()` -> a class named *Tree*) or stays opaque.  A function reference that is not called
 (`{"basic": _slice_tree_basic}[mode]`, `submit(pool, fn, **kw)`) is an edge in the caller's mode,
 or in the mode of the enclosing call's `seed=` keyword.
 
@@ -60,7 +61,7 @@ BUILTIN_EVIDENCE = {
 
 # Order-sensitive consumptions of a `set` that were reviewed by hand: the elements are integers
 # (node ids / input positions), whose hash -- hence the iteration order for a given insertion
-# history -- does not depend on PYTHONHASHSEED.  Keyed by (function, construct), not by line, so
+# history -- does not depend on PYTHONHASHSEED; or the consuming fold is order-insensitive.  Keyed by (function, construct), not by line, so
 # that unrelated edits do not invalidate the review; a *new* construct in these functions, or the
 # same construct in another function, is flagged again.
 REVIEWED_INT_SETS = {
@@ -72,6 +73,9 @@ REVIEWED_INT_SETS = {
     ("hypergraph:HyperGraph.simple_distance", "list(<set>)"): "region: set of node ids (ints)",
     ("hypergraph:HyperGraph.neighborhood_size", "map(<set>)"): "neighborhood: set of node ids (ints)",
     ("hypergraph:HyperGraph.all_shortest_distances", "iteration over <set>"): "visitors: sets of node ids (ints)",
+    ("hypergraph:HyperGraph.neighborhood_compress_cost", "iteration over <set>"):
+        "region_edges is a set of index labels (str), but the loop only groups the edges by their node set "
+        "and the cost is a sum of integers: the value does not depend on the iteration order",
 }
 
 # C17's enumerated families (statement of the property): the static obligation ranges over these;
@@ -618,7 +622,18 @@ class Extractor:
                 if not any(c in h for h in hs):
                     hs.append(self._hierarchy(c))
             if len(hs) > 1:
-                facts["opaque"] += 1      # several unrelated classes fit: dynamic dispatch, opaque
+                # several unrelated classes fit.  Tie-break by the receiver's name: `tree.m()` is
+                # a call on a class whose name contains "tree" (cotengra's naming convention);
+                # otherwise the call is dynamic dispatch and stays opaque
+                nm = key[2:].lower().strip("_")
+                named = [c for c in cands if len(nm) >= 3 and nm in c.lower()]
+                hs2 = []
+                for c in named:
+                    if not any(c in h for h in hs2):
+                        hs2.append(self._hierarchy(c))
+                if len(hs2) == 1:
+                    return named, False
+                facts["opaque"] += 1
                 return [], False
             return cands, False
 
